@@ -208,11 +208,19 @@ pub fn systematic_h(r: usize, n: usize, h0: &[bool], tail: &[bool], staircase: b
             m.ones.push((j, k + j - 1));
         }
     } else {
+        // unit lower triangular; in a quarter of the cases its columns are permuted (a permutation derived
+        // from `fix`), and in half of these the triangle is left empty: the parity part is then a
+        // permutation matrix, with cycles of any length
+        let sel = fix.first().copied().unwrap_or(1) % 8;
+        let mut perm: Vec<usize> = (0..r).collect();
+        if sel < 2 {
+            perm.sort_by_key(|&i| (fix[(i + 1) % fix.len()], i));
+        }
         for i in 0..r {
-            m.ones.push((i, k + i));
+            m.ones.push((i, k + perm[i]));
             for j in 0..i {
-                if tail[(i * r + j) % tail.len().max(1)] {
-                    m.ones.push((i, k + j));
+                if sel != 0 && tail[(i * r + j) % tail.len().max(1)] {
+                    m.ones.push((i, k + perm[j]));
                 }
             }
         }
@@ -448,6 +456,11 @@ pub fn check(c: &Case, p: &mut Probe) -> Check {
         let mut nonconv = 0usize;
         // per transmitted position (8PSK: per symbol): frames in which the recovered noise is (all but) absent
         let mut still = vec![0u32; kept];
+        // correlation of the noise with itself at longer lags inside a frame (re components for 8PSK)
+        const LAGS: [usize; 17] = [2, 3, 4, 8, 16, 32, 64, 128, 256, 512, 1024, 2048, 4096, 8192, 16_384, 32_768, 65_536];
+        let mut lag_sum = [0.0f64; 17];
+        let mut lag_cnt = [0u64; 17];
+        let mut wf: Vec<f64> = Vec::new();
         for f in frames.iter() {
             ensure!(f.len() == n, "frame-length", "decoder received {} LLRs, codeword length is {n} {ctx}", f.len());
             for i in 0..n {
@@ -494,6 +507,7 @@ pub fn check(c: &Case, p: &mut Probe) -> Check {
                 ensure!(a.solve(&rhs).is_some(), "not-a-codeword", "the signs of the transmitted positions do not extend to any codeword of H {ctx}");
             }
             // noise recovery in transmitted order
+            wf.clear();
             if c.psk8 {
                 for s in 0..kept / 3 {
                     let l = [f[tx_to_cw[3 * s]], f[tx_to_cw[3 * s + 1]], f[tx_to_cw[3 * s + 2]]];
@@ -511,6 +525,7 @@ pub fn check(c: &Case, p: &mut Probe) -> Check {
                     if w[0].abs() < 1e-4 * sigma_e && w[1].abs() < 1e-4 * sigma_e {
                         still[s] += 1;
                     }
+                    wf.push(w[0]);
                     sw[0] += w[0];
                     sw[1] += w[1];
                     sw2[0] += w[0] * w[0];
@@ -532,6 +547,7 @@ pub fn check(c: &Case, p: &mut Probe) -> Check {
                     if w.abs() < 1e-4 * sigma_e {
                         still[t] += 1;
                     }
+                    wf.push(w);
                     sw[0] += w;
                     sw2[0] += w * w;
                     sws += w * s;
@@ -540,6 +556,12 @@ pub fn check(c: &Case, p: &mut Probe) -> Check {
                     }
                     prev = Some(w);
                     cnt += 1;
+                }
+            }
+            for (li, &l) in LAGS.iter().enumerate() {
+                if wf.len() > l {
+                    lag_sum[li] += wf[..wf.len() - l].iter().zip(&wf[l..]).map(|(a, b)| a * b).sum::<f64>();
+                    lag_cnt[li] += (wf.len() - l) as u64;
                 }
             }
             // independent noise between frames, workers and points: no two recorded frames may be
@@ -573,6 +595,12 @@ pub fn check(c: &Case, p: &mut Probe) -> Check {
             }
             zcheck("scale <w,s>", sws / nn, 0.0, sigma_e / nn.sqrt(), p, &ctx)?;
             zcheck("lag-1 autocorrelation", lag / nn / (sigma_e * sigma_e), 0.0, 1.0 / nn.sqrt(), p, &ctx)?;
+            for (li, &l) in LAGS.iter().enumerate() {
+                if lag_cnt[li] >= 3500 {
+                    let m = lag_cnt[li] as f64;
+                    zcheck(&format!("autocorrelation at lag {l} within a frame"), lag_sum[li] / m / (sigma_e * sigma_e), 0.0, 1.0 / m.sqrt(), p, &ctx)?;
+                }
+            }
             if c.psk8 {
                 zcheck("re/im correlation", cross / nn / (sigma_e * sigma_e), 0.0, 1.0 / nn.sqrt(), p, &ctx)?;
             }
@@ -711,7 +739,7 @@ pub fn property() -> Property {
         id: "C12",
         subs: vec![Box::new(Sub {
             name: "llr-frames",
-            rule: "configurations: systematic H by construction ([H0 | staircase] or [H0 | unit lower triangular], 2 <= r <= 12, n = p x bs with pattern length p in 1..=12 and bs a multiple of 3; in a fifth of the cases neither p nor bs is a multiple of 3, and with 8PSK the pattern then keeps 3, 6 or 9 blocks, so that the transmitted length is a multiple of 3 although the codeword length is not), puncturing pattern none / AR4JA-like 1,1,1,1,0 / random with >= 1 true (may puncture information blocks), interleaver none or +-c with c a divisor of the transmitted length, BPSK or 8PSK, Eb/N0 chosen for an expected sigma of 0.08-0.13 (BPSK) or 0.025-0.048 (8PSK); one Eb/N0 point, or two or three in any order whose sigmas halve from level to level (frames are attributed to a point by their mean |LLR|, which differs by a factor >= 4 between points; a point whose statistics report frames although none of its scale reached the decoder is a violation, as is a majority of frames more than a factor 2 away from every point's scale), through BerTest::new or BerTestBuilder, with the outer-code accounting threshold 0 (three fifths), 1 or 2; a probe DecoderFactory records every LLR vector and answers Err with one systematic bit flipped. Oracles per frame: length n; punctured positions bit-exactly +0.0, all others finite and non-zero; signs equal the own systematic re-encoding of the first k sign bits (or, when information blocks are punctured, extend to a codeword by an own GF(2) solve); reported k, N_cw, N, rate. no two recorded frames bit-identical (independence across frames and workers), nor identical to a frame of any earlier simulation of the same process (digests kept process-wide). Noise: received samples recovered from the LLRs (BPSK exactly, 8PSK by Gauss-Newton inversion of the own exact LLR function) with the expected sigma computed from (k, N after puncturing, bits per symbol, Eb/N0); mean, variance (Wilson-Hilferty), <w,s> scale statistic, lag-1 and re/im correlation within +-7 sigma, per Eb/N0 point, once >= 3500 samples were collected for it; no transmitted position at which the recovered noise is below 1e-4 sigma in five or more frames and half of all frames. Non-trivial = puncturing and interleaving both present, or 8PSK with either; inner = frames examined",
+            rule: "configurations: systematic H by construction ([H0 | staircase] or [H0 | unit lower triangular], the latter in a quarter of the cases with permuted columns and in an eighth a plain permutation matrix, 2 <= r <= 12, n = p x bs with pattern length p in 1..=12 and bs a multiple of 3; in a fifth of the cases neither p nor bs is a multiple of 3, and with 8PSK the pattern then keeps 3, 6 or 9 blocks, so that the transmitted length is a multiple of 3 although the codeword length is not), puncturing pattern none / AR4JA-like 1,1,1,1,0 / random with >= 1 true (may puncture information blocks), interleaver none or +-c with c a divisor of the transmitted length, BPSK or 8PSK, Eb/N0 chosen for an expected sigma of 0.08-0.13 (BPSK) or 0.025-0.048 (8PSK); one Eb/N0 point, or two or three in any order whose sigmas halve from level to level (frames are attributed to a point by their mean |LLR|, which differs by a factor >= 4 between points; a point whose statistics report frames although none of its scale reached the decoder is a violation, as is a majority of frames more than a factor 2 away from every point's scale), through BerTest::new or BerTestBuilder, with the outer-code accounting threshold 0 (three fifths), 1 or 2; a probe DecoderFactory records every LLR vector and answers Err with one systematic bit flipped. Oracles per frame: length n; punctured positions bit-exactly +0.0, all others finite and non-zero; signs equal the own systematic re-encoding of the first k sign bits (or, when information blocks are punctured, extend to a codeword by an own GF(2) solve); reported k, N_cw, N, rate. no two recorded frames bit-identical (independence across frames and workers), nor identical to a frame of any earlier simulation of the same process (digests kept process-wide). Noise: received samples recovered from the LLRs (BPSK exactly, 8PSK by Gauss-Newton inversion of the own exact LLR function) with the expected sigma computed from (k, N after puncturing, bits per symbol, Eb/N0); mean, variance (Wilson-Hilferty), <w,s> scale statistic, lag-1 and re/im correlation, and the autocorrelation within a frame at lags 2, 3, 4, 8, ..., 65 536 (those shorter than the frame), within +-7 sigma, per Eb/N0 point, once >= 3500 samples were collected for it; no transmitted position at which the recovered noise is below 1e-4 sigma in five or more frames and half of all frames. Non-trivial = puncturing and interleaving both present, or 8PSK with either; inner = frames examined",
             cases: |t| t.pick(500, 20_000),
             strategy,
             check,
